@@ -7,6 +7,7 @@ import CookModel.Lemmas.RoundtripComp
 import CookModel.Lemmas.RoundtripStep
 import CookModel.Lemmas.RoundtripTimer
 import CookModel.Lemmas.RoundtripShort
+import CookModel.Lemmas.RoundtripInter
 import CookModel.Lemmas.RoundtripStepX
 import CookModel.Lemmas.RoundtripBlock
 /-
@@ -519,6 +520,40 @@ example : (match (ingredientP (α := Rat) ⟨C01_saltAnd, 0, ⟨0⟩, toyCharSpe
     | _ => false) = true := by decide
 /-- a name with a blank or a non-word token is not a single word -/
 example : ({ name := [tk .word ['a'], tk .ws [' '], tk .word ['b']] } : AComp).wfShort toyCharSpec ⟨0⟩ = false := by decide
+
+/-! ### modifiers and intermediate references -/
+
+/-- Plain modifiers (`@&name{}`, `@-name{}`, `@?name{}`, `@+name{}`, `@@name{}` and any combination
+    without repetition) are part of `C01_component_roundtrip` / `C01_single_word_roundtrip`
+    (`AComp.mods`).  This theorem adds the intermediate reference (INTERMEDIATE_PREPARATIONS):
+    an ingredient spelled `@ pre & ( [=] [~] n ) post name … { … } (note)` — the four documented
+    forms `(n)`, `(~n)`, `(=n)`, `(=~n)`, blanks anywhere inside the parentheses (`IPad`), other
+    modifier characters before the `&` and after the `)`, the rest as in the component layer — is
+    parsed by `ingredient()` to the ingredient with the flags of `pre & post`, the intermediate
+    data `{relative, section, n}` (`AInter.denote`) and the name / alias / note / quantity of the
+    component layer; span, cursor and "no diagnostic, no panic" as there.
+    `wfInter`: both extensions on, distinct modifier characters, `n ≤ 32767` (`i16`). -/
+theorem C01_intermediate_ref_roundtrip {α : Type} [Arith α] (pre post : List TK) (i : AInter) (ip : IPad)
+    (c : AComp) (p : CPad) (s : BP α)
+    (hwf : wfInter s.cs s.ext pre post i c = true) (hip : ip.ok s.cs = true) (hp : p.ok s.cs = true)
+    (A ts rest : List Tok) (hs : Spells ts (spellIngredientI pre post i ip c p)) (ht : s.toks = A ++ (ts ++ rest))
+    (hc : s.cur = A.length) (hrest : restOK c rest = true) (hrun : RunAt (baseOff s.toks) s.toks) :
+    ∃ ing : PIngredient α,
+      ingredientP s = (some (.ingredient ⟨ing, ⟨offAt s.toks A.length, offAt s.toks (A.length + ts.length)⟩⟩),
+        { s with cur := A.length + ts.length }) ∧ IngrMatchesI s.cs (pre ++ .and :: post) i c ing :=
+  rt_ingredientP_inter pre post i ip c p s hwf hip hp A ts rest hs ht hc hrest hrun
+
+/-! examples: `@-&( = ~ 2 )?dough{}`; `40000` does not fit `i16`; without the extension the spelling
+    is not read as a reference -/
+def C01_exInter : AInter := { relative := true, isSection := true, digits := ['2'] }
+def C01_exIPad : IPad := { b0 := [tk .ws [' ']], b1 := [tk .ws [' ']], b2 := [tk .ws [' ']], b3 := [tk .ws [' ']] }
+example : wfInter toyCharSpec C01_allExt [.minus] [.question] C01_exInter { name := [tk .word "dough".toList] } = true ∧
+    C01_exIPad.ok toyCharSpec = true := by decide
+example : (C01_exInter.denote) = ⟨true, true, 2⟩ := by decide
+example : wfInter toyCharSpec C01_allExt [] [] { digits := "40000".toList } { name := [tk .word ['x']] } = false := by decide
+example : wfInter toyCharSpec ⟨Gen.EXT_COMPONENT_MODIFIERS⟩ [] [] { digits := ['1'] } { name := [tk .word ['x']] } = false := by
+  decide
+example : wfInter toyCharSpec C01_allExt [.and] [] { digits := ['1'] } { name := [tk .word ['x']] } = false := by decide
 
 /-! ### the step layer with every component form -/
 
